@@ -97,6 +97,7 @@ pub fn run_case(kvs: &[Kv], geom: Geom, sc: Scope) -> Result<u64, String> {
                     for hik in hiks {
                         let want = expected(kvs, lo, lok, hi, hik);
                         let got = drain(apply_bounds(f.range(), lo, lok, hi, hik).into_stream())?;
+                        crate::ev::obs(crate::ev::hash_kvs(&got));
                         n += 1;
                         if got != want {
                             return Err(format!(
